@@ -652,7 +652,8 @@ BOUNDARY_NUMBERS = ["0", "-0.0", "0.1", "999999", "1000000", "1234567", "1234568
                     "9007199254740992", "9007199254740993", "1e21", "5e-324", "-7", "7", "7.5", "2", "3.14"]
 QUERY_NUMBERS = ["0", "1", "2", "7", "7.5", "0.1", "999999", "1000000", "1234567", "1234568", "3.14",
                  "9007199254740992", "9007199254740993", "1e21"]
-STRINGS = ["", "x", "xy", "abc", "1", "7", "1000000", "1e+06", "7.5", "true", "null", "0.5", "Chevrolet", " a b "]
+STRINGS = ["", "x", "xy", "abc", "1", "7", "1000000", "1e+06", "7.5", "true", "null", "0.5", "Chevrolet", " a b ",
+           "inf", "Infinity", "-inf", "NaN", "+Inf", "infinity", "nan", ".5", "-x"]
 REGEXES = ["^x", "y$", "a.c", "^[0-9]+$", "e[+]06", "^$", "Chev.*", "^1"]
 
 
